@@ -5,7 +5,10 @@ namespace sim {
   typedef void (*fn_t)(void*);
   extern bool active;
   int  spawn(fn_t fn, void *arg);                  // create a simulated thread (ids 1..n); it starts when run() is called
-  void addSwitch(int tid, long step, int target);  // scripted schedule: when `tid` reaches its `step`-th scheduling point, run `target`
+  void addSwitch(int tid, long step, int target, int region = -1);  // scripted schedule: when `tid` reaches its `step`-th scheduling point (in `region`), run `target`
+  int  beginRegion();                              // start a new team (thread ids restart at 1); returns the region number
+  void mark(int kind, const void *addr);           // an explicit scheduling point / trace record (kinds >= 6 are free for runtimes)
+  void closeTrace();
   void setTrace(const char *file);                 // record every scheduling point (thread, kind, size, step, address)
   void setChecking(bool on);                       // heap checker reports are fatal only while on
   void run(int first);                             // run all spawned threads to completion (default policy: lowest id runnable)
